@@ -1,4 +1,5 @@
 import JL.Rs
+import JL.Lemmas.TieAttr
 /-!
 # Helper lemmas for the tie theorems `split_with_escape`, `radix_literal`, `substr` of `JL/Tie`
 
@@ -118,6 +119,10 @@ theorem powi_two' (n : Nat) : Rs.powi (F64.fin false (2 ^ 1075)) n = JsOp.pow2 n
 set_option exponentiation.threshold 3000 in
 theorem two_pow_1075 : 2 ^ 1075 = 2 * F64.S := by
   simp only [F64.S, Nat.pow_succ 2 1074, Nat.mul_comm]
+
+/-! These rules are in the simp set `tie` as *pre*-rules (`↓`): they fire on a call before `simp` visits its operands, i.e. before
+the unfolding set `rs` can touch it, so that `tie_close` (`JL/Lemmas/TieAuto.lean`) never unfolds a cast or a product of floats. -/
+attribute [tie ↓] to_f64_nat mul_f64 gt_nat to_u64_bool powi_two powi_two'
 
 /-! ## `substr`: the `usize` arithmetic
 
